@@ -23,7 +23,7 @@ OCAML = os.path.join(ROOT, 'ocaml')
 GO = os.path.join(ROOT, 'go')
 WORK = os.path.join(ROOT, '.work')
 BIN = os.path.join(WORK, 'bin')
-TIMING_COMPONENTS = {14, 1401}
+TIMING_COMPONENTS = {14, 1401, 18}   # 18: notification scripts on a real single-voter server (settle by polling)
 REPO = os.environ.get('VERIF_REPO', '/repo')   # the seed runs of lib/seed_universe.sh use a scratch copy
 
 GOENV = dict(os.environ, GOFLAGS='-mod=mod', GOPROXY='off', GOSUMDB='off', GOTOOLCHAIN='local',
